@@ -9,14 +9,15 @@
  *
  * case parameters: CFG (link layer option set, see ll_c_api.h), ADV (advertising type 0 connectable undirected, 1 connectable directed,
  *   2 scannable undirected, 3 non connectable; selected with change_advertising<>() in CFG 1, fixed by the option set otherwise),
- *   LEN (size of the received buffer in bytes, exact-size object), MODE
+ *   LEN (size of the received buffer in bytes, exact-size object), WLN (white list entries in use: 0 or 3; the 3 entries are arbitrary and may be
+ *   equal, which covers lists of 1 and 2 different entries), MODE
  *   MODE 0  advertiser::handle_adv_receive() directly: accepted <=> oracle (the <= direction is a sanity / non-vacuity check)
  *   MODE 1  link_layer::adv_received(): a connection is entered only if the oracle holds
  *   MODE 2  (sanity) the connect request of bluetoe's own tests, re-addressed, enters a connection when the oracle holds
+ *   MODE 3  is_connection_request_in_filter / is_scan_request_in_filter of the link layer answer from the list and the switches
  *
  * symbolic: every byte of the received buffer (header type, TxAdd, RxAdd, length field, InitA, AdvA, LLData), the device's own address
- *   and address type, the directed advertising target and its type (and whether one was set), the white list (number of entries 0..3,
- *   entries incl. type) and both filter switches.
+ *   and address type, the directed advertising target and its type (and whether one was set), the white list (entries incl. type; number in use by case split) and both filter switches.
  *
  * Oracle (property statement, Core spec Vol 6 Part B 2.3.3.1 / 4.4.2 / 4.3.2): accepted only if
  *   buffer size == 2 + 34, PDU type == 0b0101, length field == 34 (the 6 bit length field of the 4.x layout; the two upper bits of the
@@ -38,10 +39,10 @@ void harness(void)
     /* ---- all inputs up front */
     uint8_t own[6], dir[6], wl[3][6], in[48];
     int wl_rnd[3];
-    in_bytes(own, 6);            const int own_rnd = in_bool();
+    in_bytes(own, 6);            int own_rnd = in_bool();
     in_bytes(dir, 6);            const int dir_rnd = in_bool();   const int dir_set = in_bool();
     for (int i = 0; i < 3; ++i) { in_bytes(wl[i], 6); wl_rnd[i] = in_bool(); }
-    const unsigned wl_n        = (unsigned)in_range(0, 3);
+    const unsigned wl_n        = (unsigned)CASE(WLN);      /* entries in use: concrete (a symbolic end pointer of the list search costs minutes) */
     const int      conn_filter = in_bool();
     const int      scan_filter = in_bool();
     in_bytes(in, 48);
@@ -56,7 +57,12 @@ void harness(void)
     }
 
     /* ---- configuration through the public functions; white list content through raw members (its semantics: C26) */
-    vfc_set_local_address(own, own_rnd);
+    /* OWN 0: the device's default address (static random address derived from the radio's seed); 1: symbolic address and type set with
+     * local_address() (minutes per case: byte-wise reasoning about 7 byte address objects); 2: a concrete public address */
+    const int own_mode = (int)CASE(OWN);
+    if (own_mode == 2) { static const uint8_t pub[6] = { 0x66, 0x55, 0x44, 0x33, 0x22, 0x11 }; for (int i = 0; i < 6; ++i) own[i] = pub[i]; own_rnd = 0; }
+    if (own_mode != 0) vfc_set_local_address(own, own_rnd);
+    else vfc_get_local_address(own, &own_rnd);
     if (cfg != 5) {
         for (unsigned i = 0; i < 3; ++i) vfc_wl_set_entry(i, wl[i], wl_rnd[i]);
         vfc_wl_set_raw(3 - wl_n, conn_filter, scan_filter);
@@ -112,10 +118,10 @@ void harness(void)
             CHECK(!may_connect, "(sanity) a properly addressed and permitted connect request is accepted");
             CHECK(env_n_adv == 2, "a request that is not accepted is followed by the next advertisement");
         }
+    } else if (mode == 3) {
         /* the filter questions the radio / advertiser ask are answered from the list and the switches */
         CHECK(!vfc_conn_in_filter(init_a, tx_add) == !filter_ok, "connection filter: off or initiator in the white list");
-        int scan_in_list = in_list;
-        CHECK(!vfc_scan_in_filter(init_a, tx_add) == !(cfg == 5 || !scan_filter || scan_in_list), "scan filter: off or scanner in the white list");
+        CHECK(!vfc_scan_in_filter(init_a, tx_add) == !(cfg == 5 || !scan_filter || in_list), "scan filter: off or scanner in the white list");
     } else {
         vfc_adv_received(pdu, len);
         vfc_get_adv(f);
